@@ -1341,6 +1341,12 @@ func f(lhs *ResultEval, rhs *ResultEval, l int, op influxql.Token, v *influxql.V
 func evalBinaryExpr(expr *influxql.BinaryExpr, v *influxql.ValuerEval, columnMap map[string]*ColumnImpl, l int, rp *ResultEvalPool) *ResultEval {
 	lhs := eval(expr.LHS, v, columnMap, l, rp)
 	rhs := eval(expr.RHS, v, columnMap, l, rp)
+	if lhs.isLiteral {
+		// the result is written into lhs: a pooled ResultEval keeps the nil flags of its
+		// previous use, which a literal never reads but the result does
+		lhs.appendNilLen(l)
+		clear(lhs.isNil[:l])
+	}
 	f(lhs, rhs, l, expr.Op, v)
 	// promql bool modifier rewriting results, true:1, false:0.
 	if expr.ReturnBool {
